@@ -120,6 +120,15 @@ func checkBytes(c *core.Ctx, data []byte) error {
 			return fmt.Errorf("root %d: Hash() allocated %d bytes for a graph of %d cells", i, a, n)
 		}
 		_ = r.Level()
+		// the same question twice through one caching hasher: a refusal is a refusal the second time too
+		{
+			hs := boc.NewHasher()
+			h1, e1 := hs.Hash(r)
+			h2, e2 := hs.Hash(r)
+			if (e1 == nil) != (e2 == nil) || !bytes.Equal(h1, h2) || (herr == nil) != (e1 == nil) {
+				return fmt.Errorf("root %d: one Hasher asked twice answers %x,%v and then %x,%v; Cell.Hash() answered %x,%v", i, h1, e1, h2, e2, h, herr)
+			}
+		}
 		if n <= 5000 {
 			var text string
 			if a := core.AllocDelta(func() { text = r.ToString() }); a > uint64(16<<20)+16*uint64(len(text)) {
